@@ -2,7 +2,7 @@
 # usage: tools/mutcheck.sh <patch.diff> <Cxx> [<Cyy> …]
 # applies a seeded change to /repo, runs the given checks (quick tier), undoes the change straight afterwards.
 set -u
-P="$1"; shift
+P="$(realpath "$1")"; shift
 cd /verif
 git -C /repo apply "$P" || { echo "patch does not apply"; exit 3; }
 for c in "$@"; do
